@@ -145,6 +145,18 @@ func TestC14Fwd(t *testing.T) {
 			s.Dir.Prec = "."
 		}
 		s.Dir.Verb = ax.verbs[rapid.IntRange(0, len(ax.verbs)-1).Draw(rt, "verb")]
+		if (s.Dir.Width == "*" || s.Dir.Prec == ".*") && rapid.IntRange(0, 9).Draw(rt, "oddverb") == 4 {
+			// after a '*' fmt takes the next byte as the verb whatever it is: a
+			// digit, a flag character, '*'
+			v := []string{"5", "0", "#", "+", "-", " ", "*"}[rapid.IntRange(0, 6).Draw(rt, "oddv")]
+			s.Dir.Verb = B(v)
+			if s.Dir.Width == "*" && rapid.Bool().Draw(rt, "zerow") {
+				s.StarW = 0
+			}
+			if v == "*" && s.Dir.Prec == "." {
+				s.Dir.Prec = "" // (".*" would be a star precision)
+			}
+		}
 		if s.Dir.Width == "*" && rapid.IntRange(0, 3).Draw(rt, "stark") == 0 {
 			s.StarKind = c14StarKinds[rapid.IntRange(0, len(c14StarKinds)-1).Draw(rt, "starkind")]
 			if s.StarKind == "uint8" {
@@ -153,6 +165,10 @@ func TestC14Fwd(t *testing.T) {
 		}
 		if rapid.IntRange(0, 2).Draw(rt, "sibk") == 0 {
 			s.Sib = c14SiblingNames[rapid.IntRange(0, len(c14SiblingNames)-1).Draw(rt, "sib")]
+		}
+		if kf1(s) && knownOpen("KF1") {
+			col.Excluded("KF1: verb " + string(s.Dir.Verb) + " after '*'")
+			s.Dir.Verb = B("v")
 		}
 		return s
 	})
@@ -200,4 +216,29 @@ func TestEnumC14Big(t *testing.T) {
 		}
 	}
 	col.Exhaustive("C14Fwd(big)", fmt.Sprintf("%d directives with widths/precisions up to 1e6 (literal and '*') and values congruent modulo 65536, interleaved", n))
+}
+
+// kf1: the combinations of known finding KF1 - MakeFormat cannot express a
+// digit verb at all, nor a flag character or '*' as the verb when it writes
+// neither a width nor a precision before it.
+func kf1(s *C14Spec) bool {
+	v := string(s.Dir.Verb)
+	switch v {
+	case "5", "0":
+		return true
+	case "#", "+", "-", " ", "*":
+	default:
+		return false
+	}
+	noWidth := s.Dir.Width == ""
+	if s.Dir.Width == "*" {
+		switch s.StarKind {
+		case "", "uint8":
+			noWidth = s.StarW == 0
+		default:
+			noWidth = true // (out of range: BADWIDTH, no width)
+		}
+	}
+	noPrec := s.Dir.Prec == "" || (s.Dir.Prec == ".*" && s.StarP < 0)
+	return noWidth && noPrec
 }
